@@ -9,6 +9,7 @@ CONSTANTS
   KnownRefund = TRUE
   Versions = {5}
   AllFull = TRUE
+  RlpKeepsCaches = FALSE
   GenMode = "none"
 CONSTRAINT HighWater
 POSTCONDITION Accepted
